@@ -20,3 +20,11 @@ type WALEntryObserver interface {
 	// This method is called after the fsync operation has completed successfully.
 	OnWALSync(upToSeq uint64)
 }
+
+// WALRotationObserver is implemented by observers that hold on to the WAL they
+// observe. When the storage layer replaces the WAL (rotation at flush), it
+// hands the observers of the old WAL over to the new one and tells those that
+// implement this interface which WAL is current from now on.
+type WALRotationObserver interface {
+	OnWALRotated(newWAL *WAL)
+}
